@@ -13,7 +13,9 @@ def run(ctx):
                         "partial: process creation, pipes, urfave/cli flag parsing and the exit status are observed on the real binary, not modelled"]
     ctx.trusted += ["urfave/cli, os/exec, the shell-level contract of exit statuses"]
     cli = common.build_cli(ctx)
-    runs = [['-bin', cli, '-dir', ctx.scratchdir(), '-seed', ctx.seed, '-n', ctx.pick(4, 60), '-depth', 2, '-batch', 2]]
+    runs = [['-bin', cli, '-dir', ctx.scratchdir(), '-seed', ctx.seed, '-n', ctx.pick(4, 60), '-depth', 2, '-batch', 2],
+            # the deepest trees the two modes support
+            ['-bin', cli, '-dir', ctx.scratchdir(), '-seed', ctx.seed + 5, '-n', ctx.pick(1, 10), '-depth', 32, '-deldepth', 31, '-batch', 1]]
     if ctx.thorough:
         runs += [['-bin', cli, '-dir', ctx.scratchdir(), '-seed', ctx.seed + 1, '-n', 30, '-depth', 3, '-batch', 2],
                  ['-bin', cli, '-dir', ctx.scratchdir(), '-seed', ctx.seed + 2, '-n', 30, '-depth', 1, '-batch', 1]]
